@@ -10,16 +10,16 @@ open Proto_link
 let rec z_of_int (i : int) : z = if i = 0 then Z0 else if i > 0 then Zpos (pos_of_int i) else Zneg (pos_of_int (-i))
 
 (* repairs in force: those of the current source (c07_fix_flags, from Gen/Consts.v); the environment
-   variable C07_FIX=<nine 0/1 digits> overrides them (experiments with a repaired scratch tree only) *)
+   variable C07_FIX=<ten 0/1 digits> overrides them (experiments with a repaired scratch tree only) *)
 let flags : bool list =
   match Sys.getenv_opt "C07_FIX" with
-  | Some s when String.length s = 9 -> List.init 9 (fun i -> s.[i] = '1')
+  | Some s when String.length s = 10 -> List.init 10 (fun i -> s.[i] = '1')
   | _ -> c07_fix_flags
 let fl i = List.nth flags i
 
 let () =
   let rfx = { rf_nb = fl 1; rf_wbusy = fl 2; rf_rclose = fl 3; rf_sbusy = fl 6; rf_wother = fl 7; rf_wstale = fl 8 } in
-  let mfx = { mf_nb = fl 4; mf_resize = fl 5 } in
+  let mfx = { mf_nb = fl 4; mf_resize = fl 5; mf_getput = fl 9 } in
   register "surveyor0" (fun () -> mk_proto surv_init (surv_step (fl 0)) surv_poll true);
   register "respondent0" (fun () -> mk_proto resp_init (resp_step rfx) resp_poll false);
   register "surveyor0_raw" (fun () -> mk_proto xsurv_init (xsurv_step mfx) xsurv_poll false);
